@@ -224,7 +224,10 @@ def create_formatted_exception(
 ) -> BaseException:
     try:
         try:
-            new = type(cls.__name__, (cls, base), {
+            # (a class that ``base`` derives from - ``Exception`` itself -
+            # cannot stand in front of it)
+            bases = (base,) if issubclass(base, cls) else (cls, base)
+            new = type(cls.__name__, bases, {
                 '__str__': formatter,
                 '_original__str__': exc.__str__,
                 '__new__': BaseException.__new__,
